@@ -14,6 +14,10 @@ def _sel_table():
     return [(1, I(2, signed=True)), (2, D(C(1))), (3, SUB)]
 
 
+def _sel_ints():
+    return [(1, I(2)), (2, I(2, signed=True)), (3, I(2, end='little'))]
+
+
 def components():
     """name -> function(i) -> list of (field name, node); header fields first"""
     c = {}
@@ -85,6 +89,10 @@ def components():
                            ('u%d' % i, dict(RS(F('t%d' % i), [(1, I(2)), (3, SUB)], 0), shared_table='TABS%d' % i)),
                            ('l%d' % i, S(dict(RS(F('t%d' % i), [(1, I(2)), (3, SUB)], 0), shared_table='TABS%d' % i), C(2), default=[]))])
     add('rsl', lambda i: [('t%d' % i, I(1)), ('u%d' % i, RS(F('t%d' % i), _sel_table(), 0, form='lambda'))])
+    # alternatives that differ ONLY in signedness / byte order / delimiter handling (same class, same size, same marker), built anew at every call
+    add('rsi', lambda i: [('t%d' % i, I(1)), ('u%d' % i, RS(F('t%d' % i), _sel_ints(), 0, form='lambda'))])
+    add('rsic', lambda i: [('t%d' % i, I(1)), ('u%d' % i, RS(F('t%d' % i), _sel_ints(), 0))])
+    add('rsm', lambda i: [('t%d' % i, I(1)), ('u%d' % i, RS(F('t%d' % i), [(1, DM(b'\x00')), (2, DM(b'\x00', incl=True)), (3, DM(b'\x00\x00'))], b'', form='lambda'))])
     # ---- repeated
     add('s2', lambda i: [('l%d' % i, S(I(1), C(2)))])
     add('s0', lambda i: [('l%d' % i, S(I(1), C(0)))])
@@ -95,6 +103,7 @@ def components():
     add('sm', lambda i: [('n%d' % i, I(1)), ('l%d' % i, S(DM(b'\x00'), F('n%d' % i)))])
     add('sr', lambda i: [('n%d' % i, I(1)), ('l%d' % i, S(R(SUB), F('n%d' % i)))])
     add('srs', lambda i: [('t%d' % i, I(1)), ('l%d' % i, S(RS(F('t%d' % i), _sel_table(), 0), C(2), default=[]))])
+    add('srsi', lambda i: [('t%d' % i, I(1)), ('l%d' % i, S(RS(F('t%d' % i), _sel_ints(), 0, form='lambda'), C(2), default=[]))])
     add('ss', lambda i: [('n%d' % i, I(1)), ('l%d' % i, S(I(2, signed=True), F('n%d' % i)))])
     add('ssl', lambda i: [('l%d' % i, S(I(1, signed=True, end='little'), C(2)))])
     add('srem', lambda i: [('l%d' % i, S(I(1), ['rem'], csp='rem'))])
@@ -175,7 +184,7 @@ def extras():
     """components that only explicit specs name (not part of the pairwise enumeration): integers of every width in every
     byte-order spelling"""
     c = {}
-    for n in (1, 2, 3, 4, 5, 8, 9):
+    for n in (1, 2, 3, 4, 5, 6, 7, 8, 9):
         for e in (None, 'big', 'little', 'network', 'local'):
             for sg in (False, True):
                 c['x%d%s%s' % (n, (e or 'def')[:3], 's' if sg else 'u')] = (
